@@ -179,6 +179,12 @@ def node_kind_matrix():
                     args = [I("s1")] * n
                     args[pos] = x
                     out.append(ast.Call(fid, list(args)))
+                    if n > 1:
+                        # the other arguments TYPED (a call that returns a string, a string literal): a bare field is of unknown type and takes other paths
+                        for filler in (call("tolower", I("s1")), S("a")):
+                            args = [filler] * n
+                            args[pos] = x
+                            out.append(ast.Call(fid, list(args)))
             out.append(ast.Call(fid, [S("a")] * n))
             out.append(ast.Call(fid, [ast.Integer("1")] * n))
     # namespaced look-alikes of built-ins (never validated by the parser)
